@@ -151,7 +151,7 @@ def _replay_schedule(case, free_run_s=2.0):
         def __init__(self, lock, name):
             self.lock, self.name = lock, name
 
-        def __enter__(self):
+        def acquire(self, *a, **k):
             g = point("acq", self.name)
             if g:
                 if not self.lock.acquire(timeout=5):
@@ -159,12 +159,19 @@ def _replay_schedule(case, free_run_s=2.0):
                 done(g)
             else:
                 self.lock.acquire()
-            return self
+            return True
 
-        def __exit__(self, *a):
+        def release(self):
             g = point("rel", self.name)
             self.lock.release()
             done(g)
+
+        def __enter__(self):
+            self.acquire()
+            return self
+
+        def __exit__(self, *a):
+            self.release()
             return False
     A.filelock = SLock(threading.Lock(), "filelock")
     A.inevalfilelock = SLock(threading.Lock(), "inevalfilelock")
